@@ -362,6 +362,33 @@ func runC17(c *Ctx) {
 			c.Check("C17-R3", "compare-after-successful-derivation", cmp.Pos(), okD, "the digest is compared although key derivation failed or did not run")
 		}
 	}
+	// the passphrase reaches the KDF unmodified
+	if dkf := snaclMethod(c, "C17-R3", "SecretKey", "deriveKey"); dkf != nil {
+		n := 0
+		for _, call := range callsNamed(dkf, "Key") {
+			if callee := call.Call.StaticCallee(); callee == nil || !strings.HasSuffix(fnPkgPath(callee), "scrypt") {
+				continue
+			}
+			n++
+			okP := false
+			if ld, ok := call.Call.Args[0].(*ssa.UnOp); ok {
+				if prm, ok := ld.X.(*ssa.Parameter); ok && paramIndex(dkf, prm) == 1 {
+					okP = true
+				}
+			}
+			c.Check("C17-R3", "kdf-gets-exact-passphrase", call.Pos(), okP, "the passphrase is transformed before key stretching (trimmed/normalised): near-miss passphrases derive the same key")
+			okSalt := false
+			if sl0, ok := call.Call.Args[1].(*ssa.Slice); ok && sl0.Low == nil && sl0.High == nil {
+				if fa, ok := sl0.X.(*ssa.FieldAddr); ok {
+					_, f := fieldAddrName(fa)
+					okSalt = f == "Salt"
+				}
+			}
+			c.Check("C17-R3", "kdf-uses-stored-salt-and-parameters", call.Pos(), okSalt, "the key is not stretched with the full stored salt")
+		}
+		c.Floor("C17-R3", "scrypt.Key calls", n, 1)
+	}
+
 	// ---------- R4 layout agreement ----------
 	ma := snaclMethod(c, "C17-R4", "SecretKey", "Marshal")
 	un := snaclMethod(c, "C17-R4", "SecretKey", "Unmarshal")
